@@ -59,6 +59,7 @@ type fnPending struct {
 
 type fakeNet struct {
 	mu        sync.Mutex
+	ifMu      sync.RWMutex // guards ifaces (may change at run time)
 	ifaces    []fnIface
 	socks     []*fnSock
 	ports     map[string]bool // "ip:port" in use
@@ -87,7 +88,16 @@ func newFakeNet(ifaces []fnIface) *fakeNet {
 	}
 }
 
+// addIface makes a new interface appear at run time (continual gathering watches the interface list).
+func (f *fakeNet) addIface(ifc fnIface) {
+	f.ifMu.Lock()
+	f.ifaces = append(append([]fnIface{}, f.ifaces...), ifc)
+	f.ifMu.Unlock()
+}
+
 func (f *fakeNet) hasIP(ip net.IP) bool {
+	f.ifMu.RLock()
+	defer f.ifMu.RUnlock()
 	for _, ifc := range f.ifaces {
 		for _, a := range ifc.Addrs {
 			if net.ParseIP(a).Equal(ip) {
@@ -196,7 +206,10 @@ func (f *fakeNet) ResolveTCPAddr(n, a string) (*net.TCPAddr, error) { return net
 
 func (f *fakeNet) Interfaces() ([]*transport.Interface, error) {
 	var out []*transport.Interface
-	for i, ifc := range f.ifaces {
+	f.ifMu.RLock()
+	ifaces := f.ifaces
+	f.ifMu.RUnlock()
+	for i, ifc := range ifaces {
 		flags := net.FlagMulticast
 		if ifc.Up {
 			flags |= net.FlagUp
